@@ -443,6 +443,16 @@ def oracle_keys(case, out):
             return "cells marked live %s.. differ from the keys handed out" % marked[:5]
         if len(set(chain)) != len(chain) or set(chain) & set(marked) or len(chain) + len(marked) != NK:
             return "free list and live keys do not partition the 1024 indices (%d free, %d live)" % (len(chain), len(marked))
+        # the destructor column: a registered destructor belongs to a LIVE key (a deleted key has none)
+        for tok in o[3 + n:]:
+            if tok.startswith("dt="):
+                for ent in tok[3:].split(","):
+                    if ent:
+                        k, tag = map(int, ent.split(":"))
+                        if k not in live:
+                            return "key %d is not live but its key-table cell still holds destructor %d" % (k, tag)
+                        if live[k] != tag:
+                            return "key %d was created with destructor %d, its cell holds %d" % (k, live[k], tag)
     except (IndexError, ValueError) as e:
         return "unparsable output (%s): %s" % (e, out[:120])
     return None
@@ -538,7 +548,7 @@ def oracle_conc(case, out):
     held = []
     window = False
     msg = None
-    stats = {"cas_fail": 0, "entries": 0, "corrupt": 0}
+    stats = {"cas_fail": 0, "entries": 0, "corrupt": 0, "spin_wait": 0, "preempted_in_lock": 0}
     for tok in toks[1:]:
         if tok == ";":
             continue
@@ -581,6 +591,10 @@ def oracle_conc(case, out):
         else:
             lab, _, v = what.partition(":")
             v = int(v) if v else 0
+            if lab == "sw":
+                stats["spin_wait"] += 1          # a trylock failed: some other thread is parked inside the locked region
+                stats["preempted_in_lock"] += 1 if any(a is not None and a[0] in ("ah", "an", "ac", "dk", "dh", "dc", "su")
+                                                       for u, a in enumerate(at) if u != t) else 0
             if prev and prev[0] == "ac" and lab == "ah":
                 stats["cas_fail"] += 1
             if prev and prev[0] == "dc" and lab == "dh":
@@ -722,6 +736,53 @@ def oracle_lib_full(out):
     return None
 
 
+SAN_FLAGS = ["-fsanitize=address,undefined", "-fno-sanitize-recover=all", "-fno-omit-frame-pointer"]
+SAN_ENV = {"ASAN_OPTIONS": "detect_leaks=0:halt_on_error=1", "UBSAN_OPTIONS": "print_stacktrace=1:halt_on_error=1"}
+
+
+def build_san(ctx):
+    """thorough tier: library sources + harness/c10_tls_lib.c under AddressSanitizer + UndefinedBehaviorSanitizer"""
+    lib = None
+    for _ in range(6):
+        try:
+            src = vlib.build_lib(extra=SAN_FLAGS)
+            lib = os.path.join(ctx.dir, "libmyth_san.a")
+            shutil.copyfile(src, lib + ".tmp"); os.replace(lib + ".tmp", lib)
+            break
+        except OSError:
+            lib = None
+    if lib is None:
+        raise vlib.BuildError("sanitizer build of the library vanished repeatedly")
+    return vlib.cc(os.path.join(ctx.dir, "c10_tls_lib_san"), [os.path.join(H, "c10_tls_lib.c")],
+                   flags=vlib.lib_cflags() + ["-O0", "-g"] + SAN_FLAGS, libs=[lib, "-lpthread", "-ldl", "-lrt"])
+
+
+def san_report(rc, out):
+    m = re.search(r"(ERROR: AddressSanitizer[^\n]*|[^\n]*runtime error:[^\n]*|ERROR: UndefinedBehaviorSanitizer[^\n]*)", out)
+    if m:
+        return m.group(1).strip()[:300]
+    if rc != 0 or "done" not in out.split("\n"):
+        return "the sanitizer build did not complete the run (exit code %d): %s" % (rc, out[-200:].strip())
+    return None
+
+
+def oracle_lib_mixed(rc, out):
+    """free-running mixed create / delete / set / get: the harness judges every operation that ran entirely
+    inside one incarnation of its index (see harness/c10_tls_lib.c "mixed"); returns (message, stats)"""
+    st = {}
+    viol = [l[2:] for l in out.split("\n") if l.startswith("V ")]
+    m = re.search(r"^mixed (.*)$", out, re.M)
+    if m:
+        st = {k: int(v) for k, v in (x.split("=") for x in m.group(1).split())}
+    if viol:
+        return viol[0] + (" (+%d more)" % (len(viol) - 1) if len(viol) > 1 else ""), st
+    if "done" not in out.split("\n") or not m:
+        return "the run did not complete (exit code %d): %s" % (rc, out[-150:].strip()), st
+    if st.get("violations", 0):
+        return "%d violations counted" % st["violations"], st
+    return None, st
+
+
 def oracle_lib_memo(out):
     """the property on the log of `c10_tls_lib memo`: getspecific returns the last value THIS thread stored under
     THIS key, else NULL.  Returns (message, stats)."""
@@ -816,7 +877,10 @@ def probe(unit):
     impl += ["<no output>"] * (3 - len(impl))
     am, _, _ = oracle_conc(ABA_CASE, impl[1])
     sm, sflag = oracle_sys(STALE_CASE, impl[2])
-    return (am is not None), (sm is not None and sflag), impl[0], impl[1], impl[2]
+    # the ABA finding = a key handed out twice / the live mark installed as list head on this very schedule;
+    # any other failure of the witness schedule is an ordinary failing case (it is among the cases)
+    aba = am is not None and ("handed out by a create" in am or "live mark installed" in am)
+    return aba, (sm is not None and sflag), impl[0], impl[1], impl[2]
 
 
 THEOREMS = {
@@ -862,7 +926,7 @@ def run(ctx):
 
     kinds, failing, known_stale, known_aba, repaired = {}, [], [], [], []
     windows = 0
-    cstats = {"cas_fail": 0, "entries": 0, "corrupt": 0}
+    cstats = {"cas_fail": 0, "entries": 0, "corrupt": 0, "spin_wait": 0, "preempted_in_lock": 0}
     for i, c in enumerate(cases):
         k = c.split()[0]
         kinds[k] = kinds.get(k, 0) + 1
@@ -962,6 +1026,24 @@ def run(ctx):
                 lib_fail.append((" ".join(map(str, args)), out[-200:],
                                  "with %d creation requests %d succeeded (expected exactly %d)" % (len(res), nok, min(NK, len(res)))))
 
+    # concurrent create / delete / set / get, free running on 2-8 workers of the real runtime
+    mixed_stats = []
+    for W, T in ((2, 8), (4, 16), (8, 32), (3, 12)) if q else [(W, T) for W in (2, 3, 4, 6, 8) for T in (2 * W, 4 * W, 8 * W)]:
+        args = ["mixed", W, T, 20000 if q else 60000, ctx.rng.next() % 1000000007]
+        rc, out = run_lib(ctx, libexe, args)
+        lib_runs += 1
+        mm, st = oracle_lib_mixed(rc, out)
+        st["args"] = " ".join(map(str, args)); mixed_stats.append(st)
+        if mm:
+            # not deterministic: how often does the same configuration and seed fail again?
+            again = 0
+            for _ in range(5):
+                rc2, out2 = run_lib(ctx, libexe, args)
+                again += 1 if oracle_lib_mixed(rc2, out2)[0] else 0
+            lib_fail.append((" ".join(map(str, args)), out[-600:], mm + " [free-running schedule; the same configuration and "
+                             "seed failed again in %d of 5 repetitions]" % again))
+            break
+
     # reads by threads that never stored (recycled descriptors), delete + re-create on another worker,
     # store / migrate / store / migrate back / read - through the library's exported functions
     memo_stats = []
@@ -973,6 +1055,25 @@ def run(ctx):
         st["args"] = " ".join(map(str, args)); memo_stats.append(st)
         if mm:
             lib_fail.append((" ".join(map(str, args)), out[-600:], mm))
+
+    # thorough tier: the same library families under ASan + UBSan (no read outside the key table / a leaf / the pool)
+    san_runs, san_reports = 0, 0
+    if ctx.thorough:
+        san_exe = build_san(ctx)
+        sargs = [["stale"], ["full"], ["memo", 2, 20, 5], ["memo", 4, 20, 6], ["mixed", 2, 8, 20000, 7], ["mixed", 4, 16, 20000, 8],
+                 ["mixed", 8, 32, 10000, 9]] + [["run", W, T, K0, CA, 300, 11 + W] for W, T, K0, CA in
+                                                ((1, 4, 3, 0), (2, 8, 300, 3), (4, 16, 600, 30), (8, 32, 5, 3))]
+        for a in sargs:
+            rc_s, out_s = vlib.sh([san_exe] + [str(x) for x in a], timeout=300, env=dict(os.environ, **SAN_ENV))
+            san_runs += 1
+            sm = san_report(rc_s, out_s)
+            if sm:
+                san_reports += 1
+                lib_fail.append((" ".join(map(str, a)), out_s[-1500:], "sanitizer report (library + harness built with %s): %s"
+                                 % (" ".join(SAN_FLAGS[:2]), sm)))
+    ctx.cov["sanitizer"] = ({"build": "library sources + harness/c10_tls_lib.c with " + " ".join(SAN_FLAGS) +
+                             " (gcc; full ASan works with the library's context switches, leak detection off)",
+                             "library_processes_run": san_runs, "reports": san_reports} if ctx.thorough else "thorough tier only")
 
     labels_ok, ids, lablog = check_labels(ctx, lock)
 
@@ -995,11 +1096,21 @@ def run(ctx):
         "impl_result_distribution": outs, "oracle_failures": len(failing) + len(lib_fail),
         "impl_exit": rc1, "model_exit": rc2,
         "tree": {"single_key_cases": NK, "all_keys_case": 1, "keys_covered": NK},
-        "concurrent_allocator": {"schedule_entries": cstats["entries"], "failed_cas_retries": cstats["cas_fail"],
+        "concurrent_allocator": {"what_the_lock_step_exercises": (
+                                     "locked free list: the controller parks a thread at any of the six key.* points INSIDE the "
+                                     "locked region (or at spin.unlock) and runs the other threads against it: their trylock fails "
+                                     "(spin.wait), nobody else touches the list, and after the release the next thread sees a "
+                                     "consistent list; every schedule entry is compared with Tls/TlsKeysLockModel.v" if lock else
+                                     "lock-free CAS loops: the controller preempts between head read, next read and CAS; failed CAS "
+                                     "retries and the ABA window are reached; compared with Tls/TlsKeysModel.v"),
+                                 "schedule_entries": cstats["entries"], "failed_cas_retries": cstats["cas_fail"],
+                                 "failed_trylocks_spin_wait": cstats["spin_wait"],
+                                 "of_which_with_a_thread_parked_inside_the_locked_region": cstats["preempted_in_lock"],
                                  "cases_entering_aba_window": windows, "cases_with_duplicate_or_corrupt_head": len(known_aba)},
         "stale_pattern_cases": len(known_stale),
         "long_histories": {"cases": n_long, "cycles_per_case": LONG_N, "generation_field_bytes": widths},
         "library_runs": lib_runs + 2, "library_stats": lib_stats[:8], "library_memo_runs": memo_stats,
+        "library_mixed_runs": mixed_stats,
         "point_ids_in_source": ids, "labels_match_model": labels_ok}
     ctx.cov["evaluations"] = len(cases) + lib_runs + 2
     ctx.cov["distinct_nontrivial"] = len(set(cases)) - 2
@@ -1061,11 +1172,11 @@ def run(ctx):
         c, o, msg = failing[0]
         ctx.violation("oracle", msg, {"case": c, "observed": o[:2000], "expected": "property C10 (see oracle_%s)" % c.split()[0],
                                       "level": "unit", "all_failing": [(x[0][:300], x[2]) for x in failing[:20]]}, found=True)
-    elif lib_fail:
+    if lib_fail:
         a, o, msg = lib_fail[0]
         ctx.violation("oracle", msg, {"lib_args": a, "observed": o, "expected": "property C10 through the public API",
                                       "level": "library", "all_failing": [(x[0], x[2]) for x in lib_fail[:20]]}, found=True)
-    elif diffs:
+    if diffs and not failing and not lib_fail:
         i, c, a, b = diffs[0]
         ctx.violation("correspondence", "model and implementation disagree on %d case(s); first: %s" % (len(diffs), c[:200]),
                       {"theorem_or_correspondence": "correspondence Tls/Tls{Tree,Keys,KeysLock,Sys}Model.v <-> src/myth_tls_func.h",
@@ -1117,7 +1228,7 @@ def replay(ctx, path):
         print(out[-3000:])
         a = body["lib_args"].split()[0]
         print("oracle:", oracle_lib_run(out)[0] if a == "run" else (oracle_lib_full(out) if a == "full" else
-              (oracle_lib_memo(out)[0] if a == "memo" else "see output")))
+              (oracle_lib_memo(out)[0] if a == "memo" else (oracle_lib_mixed(rc, out)[0] if a == "mixed" else "see output"))))
     else:
         print(json.dumps(body, indent=1)[:3000])
     return 0
